@@ -276,6 +276,15 @@ def net_correspondence(res, tier, rng):
                 a = [float((7 * j * j + 3 * j) % 23 - 9) for j in range(n)]
                 glines.append('n%d SCHED NET msum - - %s %d %d' % (i, vlib.streams([a, [float(p)]]), cap, i % 6))
                 mlines.append('n%d NET msum 1 %d %s %d,%d' % (i, cap, vlib.il(a), p, cap + p))
+    # trend.Sma = MovingSum followed by the dividing Apply (NetM.smaNet); inputs are multiples of p so that every average is an integer
+    for n in range(0, 8 if tier == 'quick' else 14):
+        for p in range(1, 5 if tier == 'quick' else 8):
+            for cap in (0, 1, 2):
+                i = len(cases)
+                cases.append((n, 'sma p=%d' % p, cap))
+                a = [float(p * ((7 * j * j + 3 * j) % 23 - 9)) for j in range(n)]
+                glines.append('n%d SCHED NET sma - - %s %d %d' % (i, vlib.streams([a, [float(p)]]), cap, i % 6))
+                mlines.append('n%d NET sma 1 %d %s %d,%d' % (i, cap, vlib.il(a), p, cap + p))
     # trend.Ema: Head + Sma seed, then the indicator's goroutine reads the input itself (NetM.recurNet; inputs are multiples of p
     # and the multiplier is an integer so that Go's float64 values are exact integers)
     for n in range(0, 9 if tier == 'quick' else 16):
